@@ -435,6 +435,7 @@ fn s_functions(_t: Tier) -> BoxedStrategy<RtCase> {
 pub fn property() -> Property {
     Property {
         id: "C19",
+        quick_mult: 1,
         rule: "for each of 43 serialisable public types (2 linear-regression solvers, ridge, Lasso, elastic net, logistic regression, k-NN classifier / regressor x 2 algorithms, cover tree, linear search, trees x 2, forests x 2, four naive Bayes variants, SVC / SVR x 4 kernels, k-means, DBSCAN x 2 backends, PCA x 2 modes, truncated SVD, five distances, four kernels, DenseMatrix<f32/f64>) a model is fitted on generated data (10..40 rows, 2..5 features, 2..3 classes) and observed on fresh generated queries; a second data set with 5 more rows and different targets provides the 'different model'. non-trivial = every case (dense matrices: non-square with both dimensions >= 2); distinct = distinct serialised case",
         assumptions: vec![
             "JSON is parsed with serde_json's float_roundtrip feature, so decimal rounding is exact and the restored model must compare equal; observables through JSON may differ by 1e-12 relative".into(),
